@@ -11,7 +11,10 @@
 #define SOH 1
 #endif
 #define TKMAX NTOK
-static uint8_t TK_on[TKMAX], TK_tlen[TKMAX], TK_vlen[TKMAX], TK_tag[TKMAX][5], TK_val[TKMAX][7]; static uint32_t TK_num[TKMAX], TK_off[TKMAX], TK_w[TKMAX];
+#ifndef TKV
+#define TKV 7              /* capacity of a token value in the table */
+#endif
+static uint8_t TK_on[TKMAX], TK_tlen[TKMAX], TK_vlen[TKMAX], TK_tag[TKMAX][5], TK_val[TKMAX][TKV]; static uint32_t TK_num[TKMAX], TK_off[TKMAX], TK_w[TKMAX];
 static int TK_n, TK_bad; static uint32_t TK_len; static uint8_t TK_garb[TKMAX];   /* garbage "tokens": raw bytes that are not a token (the harness writes them and states their class): the tokenizer returns 0 there */
 static uint8_t TK_isdata[TKMAX];   /* data tokens: value is raw bytes (may hold SOH): only the fixed-width extractor may read them */
 /* tlen/vlen may be symbolic only if tlen + vlen is the same for every choice (fixed token width) */
@@ -20,7 +23,7 @@ static void TK_add(int on, uint32_t num, const uint8_t *tag, uint8_t tlen, const
   int k = TK_n++; TK_w[k] = on ? width : 0;                      /* width: a compile-time constant == tlen + vlen + 2 */
   TK_on[k] = (uint8_t)on; TK_num[k] = num; TK_tlen[k] = tlen; TK_vlen[k] = vlen;
   for (int j = 0; j < 5; j++) TK_tag[k][j] = tag[j];
-  for (int j = 0; j < 7; j++) TK_val[k][j] = val[j];
+  for (int j = 0; j < TKV; j++) TK_val[k][j] = val[j];
 }
 static void TK_render(void)
 {
@@ -36,7 +39,7 @@ static void TK_render(void)
       if (j < TK_tlen[k]) b = TK_tag[k][j < 5 ? j : 4];
       else if (j == TK_tlen[k]) b = '=';
       else if (j == w - 1) b = SOH;
-      else { uint32_t q = j - TK_tlen[k] - 1u; b = TK_val[k][q < 7 ? q : 6]; }
+      else { uint32_t q = j - TK_tlen[k] - 1u; b = TK_val[k][q < TKV ? q : TKV - 1]; }
       W_buf[o + j] = b;
     }
     o += w;
@@ -60,7 +63,7 @@ uint32_t st_extract_element(void *fromv, uint32_t sz, void *tagv, void *valv, ui
     if (TK_isdata[k]) {
       /* the byte tokenizer applied to a length-prefixed value: its contract (token ends at the first SOH after '=') yields the token of the table only if
          the value holds no SOH; a value with SOH would be split - reported as a failure of the harness (C06) */
-      int hassoh = 0; for (int j = 0; j < 7; j++) if (j < TK_vlen[k] && TK_val[k][j] == SOH) hassoh = 1;
+      int hassoh = 0; for (int j = 0; j < TKV; j++) if (j < TK_vlen[k] && TK_val[k][j] == SOH) hassoh = 1;
       if (hassoh) TK_bad = 1;
       __CPROVER_assert(!hassoh, "C06: the byte tokenizer is never applied to a length-prefixed value that holds the field separator");
       __CPROVER_assume(!hassoh);
@@ -68,7 +71,7 @@ uint32_t st_extract_element(void *fromv, uint32_t sz, void *tagv, void *valv, ui
     if (TK_w[k] > sz) { TK_bad = 1; return 0; }                 /* never the case: every token ends inside the region it is read from */
     if (TK_tlen[k] >= tag_sz || TK_vlen[k] >= val_sz) { *tag = 0; *val = 0; return 0; }   /* capacity contract (repo 4884c13): an element that does not fit the caller's buffers is not extracted */
     for (int j = 0; j < 6; j++) tag[j] = (j < 5 && j < TK_tlen[k]) ? TK_tag[k][j] : 0;     /* text + terminator (bytes after the terminator are never read) */
-    for (int j = 0; j < 8; j++) val[j] = (j < 7 && j < TK_vlen[k]) ? TK_val[k][j] : 0;
+    for (int j = 0; j < TKV + 1; j++) val[j] = (j < TKV && j < TK_vlen[k]) ? TK_val[k][j] : 0;
     return TK_w[k];
   }
   TK_bad = 1; __CPROVER_assert(0, "the decoder asks for tokens only at token boundaries"); __CPROVER_assume(0); return 0;                     /* the decoder asked for a token at a position where none starts */
